@@ -45,7 +45,7 @@ ASSUMPTIONS = [
 C31_CODES = [
     "hand", "hand", "hand", "ucode", "ucode", "new", "new", "new", "add", "set", "append", "append", "append", "remove", "remove", "replace", "replace", "clear",
     "setparent", "setparent", "setparent", "clearparent", "tagadd", "tagadd", "tagremove", "pk", "pk", "fav", "fav",
-    "delete", "delete", "delete", "delete", "flush", "commit", "rollback", "nested", "release",
+    "delete", "delete", "delete", "delete", "flush", "commit", "rollback", "nested", "release", "read", "read", "expire",
 ]
 
 
@@ -208,6 +208,16 @@ _PCT_TEMPLATES = {
     # new parent + new children + move of an existing child in one flush, then key switch where configured
     "insert-subtree-and-move": [["new", 0, 1, 0], ["new", 1, 1, 0], ["append", 0, 0, 0], ["commit", 0, 0, 0], ["new", 0, 2, 1], ["new", 1, 2, 1],
                                 ["append", 1, 1, 0], ["append", 1, 0, 0], ["pk", 0, 0, 0], ["add", 0, 0, 0], ["add", 0, 0, 0]],
+    # late-discovered work: a child c(1) carrying loaded tags is removed from p(0).children (orphan / NULL-out) and p(0) is deleted, while a
+    # sibling c(2) under another parent is dirty in a plain column only (its own collections unloaded).  The objects that need statement
+    # ordering (c(1)'s association rows before its DELETE) enter the flush only while the deleted parent is pre-sorted, i.e. after every
+    # dependency processor has already looked once at the mapper's dirty states and found nothing to do
+    "orphan-with-loaded-tags-found-late": [["new", 0, 1, 0], ["new", 1, 1, 0], ["new", 1, 2, 0], ["new", 2, 1, 0], ["new", 0, 2, 0], ["new", 2, 2, 0],
+                                           ["append", 0, 0, 0], ["append", 1, 1, 0], ["tagadd", 0, 0, 1], ["tagadd", 0, 1, 1], ["tagadd", 1, 1, 1],
+                                           ["commit", 0, 0, 0], ["read", 1, -1, 0], ["remove", 0, 0, 0], ["set", 2, 1, 0], ["delete", 0, 0, 0]],
+    "orphan-with-loaded-tags-found-late-owner-kept": [["new", 0, 1, 0], ["new", 1, 1, 0], ["new", 1, 2, 0], ["new", 2, 1, 0], ["new", 0, 2, 0], ["new", 1, 3, 0],
+                                                      ["append", 0, 0, 0], ["append", 1, 1, 0], ["append", 1, 2, 0], ["tagadd", 0, 0, 1], ["tagadd", 2, 0, 1],
+                                                      ["commit", 0, 0, 0], ["read", 1, -1, 0], ["set", 2, 1, 0], ["set", 5, 2, 0], ["remove", 0, 0, 0]],
     # replace a collection: one child leaves, one arrives, one stays
     "replace-collection": [["new", 0, 1, 0], ["new", 1, 1, 0], ["new", 1, 2, 0], ["new", 1, 3, 0], ["append", 0, 0, 0], ["append", 0, 1, 0],
                            ["commit", 0, 0, 0], ["replace", 0, 0, 6], ["delete", 0, 0, 0]],
